@@ -118,6 +118,53 @@ func genRun(j genJob) *trace.Scenario {
 	return sc
 }
 
+// waveModRun: channel 3 playing while the program rewrites the low frequency byte (NR33) without triggering again;
+// every wave step is logged with the frequency in effect at the end of that machine cycle (even frequencies only).
+func waveModRun(id string, seed int64) *trace.Scenario {
+	rng := rand.New(rand.NewSource(seed))
+	m := machine.New(intROM, machine.Options{NoCPU: true})
+	hi := rng.Intn(8)
+	f := hi<<8 | rng.Intn(128)<<1
+	cycles := 30000
+	sc := &trace.Scenario{ID: id}
+	perr := machine.Try(func() {
+		m.M.Write(0xff26, 0x00)
+		m.M.Write(0xff26, 0x80)
+		for i := 0; i < rng.Intn(300); i++ {
+			m.Hardware()
+		}
+		m.M.Write(0xff1a, 0x80)
+		m.M.Write(0xff1c, uint8([]int{0x20, 0x00, 0x40}[rng.Intn(3)]))
+		m.M.Write(0xff1d, uint8(f&0xff))
+		m.M.Write(0xff1e, uint8(0x80|f>>8))
+		prev := int(m.A.VerifGen().WavePos)
+		sc.Reset = []any{"wavemod", f, 0, 0, prev, cycles, "wavemod", seed}
+		next := 200 + rng.Intn(3000)
+		for c := 1; c <= cycles; c++ {
+			if c == next {
+				f = hi<<8 | rng.Intn(128)<<1
+				m.M.Write(0xff1d, uint8(f&0xff))
+				next = c + 100 + rng.Intn(4000)
+			}
+			m.Hardware()
+			if p := int(m.A.VerifGen().WavePos); p != prev {
+				prev = p
+				sc.Ev = append(sc.Ev, []any{c, p, f})
+			}
+		}
+	})
+	if perr != "" {
+		if sc.Reset == nil {
+			sc.Reset = []any{"wavemod", f, 0, 0, 0, cycles, "wavemod", seed}
+		}
+		sc.Ev = append(sc.Ev, []any{"panic", perr})
+	}
+	if sc.Ev == nil {
+		sc.Ev = [][]any{}
+	}
+	return sc
+}
+
 // sweepRun: channel 1 with the frequency sweep running; every duty step is logged with the frequency in effect right after it.
 func sweepRun(id string, seed int64) *trace.Scenario {
 	rng := rand.New(rand.NewSource(seed))
@@ -205,10 +252,12 @@ func genJobs(c *Ctx) []genJob {
 		jobs = append(jobs, genJob{id: fmt.Sprintf("gen-sq1x-%d", f), kind: "sq1x", a: f, cycles: cyc}, genJob{id: fmt.Sprintf("gen-sq2x-%d", f), kind: "sq2x", a: f, cycles: cyc})
 	}
 	jobs = append(jobs, genJob{id: "gen-noise-fresh", kind: "noisefresh", cycles: 400})
-	// long runs across the wrap of the audio unit's 2^22-clock counter (1,048,576 machine cycles after power-up)
-	jobs = append(jobs, genJob{id: "gen-sq2-long", kind: "sq2", a: 1024, cycles: 1<<20 + 40000},
-		genJob{id: "gen-wave-long", kind: "wave", a: 1024, cycles: 1<<20 + 40000},
-		genJob{id: "gen-noise-long", kind: "noise", a: 3, b: 5, narrow: 0, cycles: 1<<20 + 40000})
+	// long runs across five wraps of the audio unit's 2^22-clock counter (one per 1,048,576 machine cycles): generator
+	// steps fall on the first clock of a machine cycle, so it takes four lost clocks before a step is seen a cycle late
+	longc := 5<<20 + 40000
+	jobs = append(jobs, genJob{id: "gen-sq2-long", kind: "sq2", a: 1024, cycles: longc},
+		genJob{id: "gen-wave-long", kind: "wave", a: 1023, cycles: longc},
+		genJob{id: "gen-noise-long", kind: "noise", a: 3, b: 5, narrow: 0, cycles: longc})
 	// noise: every NR43 value with s <= 13
 	for s := 0; s <= 13; s++ {
 		for r := 0; r < 8; r++ {
@@ -253,6 +302,9 @@ func apuGenSamples(c *Ctx, w *trace.Writer) {
 		for i := 0; i < ns; i++ {
 			w.Put(sweepRun(fmt.Sprintf("gen-sweep-%d", i), rng.Int63n(1<<40)))
 		}
+		for i := 0; i < ns/2; i++ {
+			w.Put(waveModRun(fmt.Sprintf("gen-wavemod-%d", i), rng.Int63n(1<<40)))
+		}
 	}
 	apuGenStream(c, w)
 	apuGenEnv(c, w)
@@ -262,6 +314,10 @@ func apuRerunSamples(c *Ctx, w *trace.Writer, s *trace.Scenario) {
 	r, ok := s.Reset.([]any)
 	if ok && len(r) == 4 && trace.Str(r[0]) == "env" {
 		w.Put(envRun(s.ID, trace.Int(r[1]), int64(trace.Int(r[2])), trace.Int(r[3])))
+		return
+	}
+	if ok && len(r) == 8 && trace.Str(r[0]) == "wavemod" {
+		w.Put(waveModRun(s.ID, int64(trace.Int(r[7]))))
 		return
 	}
 	if ok && len(r) == 8 && trace.Str(r[0]) == "sqsweep" {
